@@ -178,6 +178,12 @@ func externalReadOnly(fn *ssa.Function) bool {
 			return true
 		}
 		return false
+	case "context":
+		switch fn.Name() {
+		case "Background", "TODO":
+			return fn.Signature.Recv() == nil
+		}
+		return false
 	case "fmt":
 		switch fn.Name() {
 		case "Sprintf", "Sprint", "Sprintln", "Errorf", "Printf", "Println", "Print":
